@@ -96,7 +96,18 @@ class ModProfile:
             fault = {"kind": rnd.choice(["missing", "notelf"]), "module": rnd.choice(nodes)}
         # which optional hooks each module exports (post-init and destructor are both optional)
         variant = {m: rnd.choices(["", "_np", "_nd", "_npd"], [5, 2, 1, 1])[0] for m in nodes} if rnd.random() < 0.6 else {}
-        plan = {"profile": "modules", "nodes": nodes, "deps": deps, "listed": listed, "fault": fault, "shape": shape, "cyc": cyc,
+        bulk = 0
+        if rnd.random() < 0.012:
+            # a crowd of independent modules, all listed, whose names sort before everybody else's
+            bulk = rnd.choice([126, 127, 128, 129, 135, 140])
+            extra = ["a%03d" % k for k in range(bulk)]
+            nodes = extra + nodes
+            for m in extra:
+                deps[m] = []
+            listed = extra + listed
+            if rnd.random() < 0.5:
+                rnd.shuffle(listed)
+        plan = {"profile": "modules", "nodes": nodes, "deps": deps, "listed": listed, "fault": fault, "shape": shape, "cyc": cyc, "bulk": bulk,
                 "variant": variant,
                 # modules that declare all their dependencies in one module_depends() call
                 "onecall": sorted(m for m in nodes if 2 <= len(deps[m]) <= 6 and rnd.random() < 0.5),
@@ -151,6 +162,7 @@ class ModProfile:
         res.extra = {"graphs": 1, "acyclic_loadable": int(not bad), "cyclic": int(has_cycle(clo, deps)),
                      "unloadable": int(fault is not None and fault["module"] in clo),
                      "multi_path": int(self.multipath(clo, deps)), "edges": sum(len(deps[m]) for m in clo),
+                     "runs_with_over_125_modules": int(bool(plan.get("bulk"))),
                      "modules_declaring_all_dependencies_in_one_call": len([m for m in plan.get("onecall", []) if m in clo]),
                      "modules_without_postinit": sum(1 for m in clo if plan.get("variant", {}).get(m, "") in ("_np", "_npd")),
                      "modules_without_destructor": sum(1 for m in clo if plan.get("variant", {}).get(m, "") in ("_nd", "_npd"))}
